@@ -49,14 +49,14 @@ pub fn gen_mappings(rng: &mut Rng, nseg: usize, nsrc: u64, nnm: u64, neg: bool) 
         }
         if !first_in_line { text.push(64); }
         first_in_line = false;
-        let ndc = if neg && dc > 0 && rng.chance(1, 6) { rng.range(0, dc) } else { let hi = if rng.chance(1, 20) { 100000 } else { 40 }; dc + rng.range(0, hi) };
+        let ndc = if neg && dc > 0 && rng.chance(1, 6) { rng.range(0, dc) } else { if rng.chance(1, 12) { (dc + vlq_class(rng, 6)).min((1 << 29) - 1) } else { dc + rng.range(0, 40) } };
         let mut vals = vec![ndc - dc];
         dc = ndc;
         let has_src = nsrc > 0 && rng.chance(5, 6);
         if has_src {
             let nsrc_i = rng.below(nsrc) as i64;
             let nsl = (sl + rng.range(-3, 6)).max(0);
-            let nsc = if rng.chance(1, 30) { rng.range(0, 1 << 28) } else { (sc + rng.range(-20, 30)).max(0) };
+            let nsc = if rng.chance(1, 15) { vlq_class(rng, 6) } else { (sc + rng.range(-20, 30)).max(0) };
             vals.extend([nsrc_i - src, nsl - sl, nsc - sc]);
             src = nsrc_i; sl = nsl; sc = nsc;
             if nnm > 0 && rng.chance(1, 2) {
@@ -84,10 +84,10 @@ pub fn gen_flat_doc(rng: &mut Rng, size: usize, hermes: bool) -> Value {
     let nseg = if rng.chance(1, 15) { 150 + rng.below(400) as usize } else { rng.below((size * 8) as u64 + 1) as usize };
     let neg = rng.chance(1, 4);
     let text = gen_mappings(rng, nseg, nsrc, nnm, neg);
-    let sources: Vec<Value> = (0..nsrc).map(|_| if rng.chance(1, 8) { json!([]) } else { json!([cps(*rng.pick(SRC_POOL))]) }).collect();
+    let sources: Vec<Value> = (0..nsrc).map(|_| if rng.chance(1, 8) { json!([]) } else { json!([if rng.chance(1, 3) { cps(&gen_src_name(rng)) } else { cps(*rng.pick(SRC_POOL)) }]) }).collect();
     let names: Vec<Value> = (0..nnm).map(|_| if rng.chance(1, 6) { json!({"n": rng.below(100000)}) } else { json!({"s": rng.pick(NAME_POOL)}) }).collect();
     let mut d = json!({"version": [3], "sources": [sources], "names": [names], "mappings": [text]});
-    if rng.chance(1, 2) { d["root"] = json!([cps(*rng.pick(ROOT_POOL))]); }
+    if rng.chance(1, 2) { d["root"] = json!([if rng.chance(1, 3) { cps(&gen_root_name(rng)) } else { cps(*rng.pick(ROOT_POOL)) }]); }
     if rng.chance(1, 2) { d["file"] = json!([{"s": rng.pick(NAME_POOL)}]); }
     if rng.chance(1, 3) { d["debug_id"] = json!([rng.pick(UUIDS)]); }
     if rng.chance(1, 3) { d["debugId"] = json!([rng.pick(UUIDS)]); }
@@ -97,6 +97,15 @@ pub fn gen_flat_doc(rng: &mut Rng, size: usize, hermes: bool) -> Value {
     }
     if rng.chance(1, 4) && nsrc > 0 {
         d["ignore"] = json!([(0..rng.below(3)).map(|_| rng.below(nsrc)).collect::<Vec<_>>()]);
+    }
+    if rng.chance(1, 5) {
+        // rangeMappings unrelated to the segment counts: up to 14 digits (84 bits) per line, empty lines, extra lines
+        let mut r: Vec<i64> = vec![];
+        for k in 0..rng.below(6) {
+            if k > 0 { r.push(65); }
+            for _ in 0..(if rng.chance(1, 3) { rng.below(15) } else { rng.below(3) }) { r.push(rng.below(64) as i64); }
+        }
+        d["range"] = json!([r]);
     }
     if hermes {
         d["xfs"] = json!([(0..nsrc).map(|_| json!([])).collect::<Vec<_>>()]);
